@@ -68,7 +68,7 @@ class C10(e1.E1Check):
     types_thorough = types_quick + [rec(("x", var(I)), ("y", var(var(F)))), var(rec(("x", opt(I)), ("y", var(I)))),
                                     opt(var(rec(("x", I)))), var(reg(2, rec(("x", I), ("y", I))))]
     bounds_quick = dict(N=3, M=2, K=6, enc_k=1, state_cap=40, parts=2)
-    bounds_thorough = dict(N=3, M=2, K=8, enc_k=2, state_cap=40, parts=16)
+    bounds_thorough = dict(N=3, M=2, K=8, enc_k=1, state_cap=35, parts=16)
     rule = ("states = record-bearing arrays (records under lists, options, regular lists, nested records, tuples, zero fields, "
             "contents longer than the record) x encodings; transitions = (field path, positional slice) pairs executed in both "
             "orders x[fields][slice] and x[slice][fields] and as one tuple, field-list projection, and setitem_field(name | new "
